@@ -374,9 +374,9 @@ fn run_case(out: &mut Out, run: u64, i: &mut u64, vm: &mut Vm<MemoryStorage>, pc
 fn wide(o: &Opts, out: &mut Out, run: &mut u64) {
     let thorough = o.thorough();
     let mut rng = o.rng(22);
-    let reps_valid = o.opt("--reps").and_then(|s| s.parse().ok()).unwrap_or(if thorough { 250 } else { 9 });
+    let reps_valid = o.opt("--reps").and_then(|s| s.parse().ok()).unwrap_or(if thorough { 250 } else { 6 });
     let reps_other = if thorough { 8 } else { 1 };
-    let reps_four = if thorough { 3000 } else { 90 };
+    let reps_four = if thorough { 3000 } else { 60 };
     // the case list: (instruction, immediate, flag) with repetitions; shuffled so that every session mixes instructions
     let mut cases: Vec<Case> = vec![];
     for (opc, fam, w) in OPS {
